@@ -15,7 +15,7 @@ from common import cbool, clist, cnat
 THEORY = "C01"
 ALLOWED = {  # kind -> allowed result classes (without fault) ; delivery_error always allowed under a fault
     "ok": "value", "exc": "exception", "baseexc": "exception", "badres": "delivery_error", "badarg": "delivery_error",
-    "slow_to": "timeout"}
+    "slow_to": "timeout", "islocked": "value"}
 
 
 def to_labels(obs, spec):
@@ -35,7 +35,7 @@ def to_labels(obs, spec):
             c = obs["calls"][tag]
             cid = callers.setdefault(c["caller"], len(callers))
             kind = c["kind"]
-            body = {"ok": "OValue %d" % rid, "badres": "OValue %d" % rid, "badarg": "OValue %d" % rid, "slow_to": "OValue %d" % rid,
+            body = {"ok": "OValue %d" % rid, "badres": "OValue %d" % rid, "badarg": "OValue %d" % rid, "slow_to": "OValue %d" % rid, "islocked": "OValue %d" % rid,
                     "exc": "OExc %d" % rid, "baseexc": "OExc %d" % rid}[kind]
             info.append("mkInfo %s %s %s %s (%s)" % (cbool(c["remote"]), cnat(cid), cbool(kind != "badarg"),
                                                      cbool(kind != "badres"), body))
@@ -114,7 +114,13 @@ def to_labels(obs, spec):
             cls.append("CNone")
         else:
             cls.append({"value": "CValue", "exception": "CExc", "delivery_error": "CDelivery", "timeout": "CTimeout"}[res[0]])
-    xlog = [tag_rid[x[1]] for x in obs["execlog"] if x[0] == "enter" and x[1] in tag_rid]
+    # execution order as observed at the worker (method calls and lock-control requests alike)
+    xlog = [rid_of[e[1]] for e in obs["trace"] if e[0] == "Exec" and e[1] in rid_of]
+    # ... which, restricted to method calls, must be the order in which the method bodies were entered
+    bodies = [tag_rid[x[1]] for x in obs["execlog"] if x[0] == "enter" and x[1] in tag_rid]
+    lockreq = {tag_rid[t] for t, c in obs["calls"].items() if c["kind"] == "islocked" and t in tag_rid}
+    if [r for r in xlog if r not in lockreq] != bodies:
+        raise ValueError("worker dispatch order %r differs from the order of method-body entries %r" % (xlog, bodies))
     return labels, info, cls, xlog
 
 
@@ -169,7 +175,7 @@ def gen_specs(ck, n):
     specs = []
     for _ in range(n):
         nl, nr = rng.choice([(1, 1), (2, 1), (1, 2), (0, 2), (2, 0), (1, 0), (0, 1), (2, 2)])
-        pool = rng.choice([rpcsim.KINDS, ["ok", "ok", "exc"], rpcsim.KINDS_TIMEOUT])
+        pool = rng.choice([rpcsim.KINDS, ["ok", "ok", "exc"], rpcsim.KINDS_TIMEOUT, rpcsim.KINDS_LOCKQ])
         mk = lambda: [rng.choice(pool) for _ in range(rng.randint(1, 3))]
         specs.append(dict(local=[mk() for _ in range(nl)], remote=[mk() for _ in range(nr)],
                           fault=rng.choice(rpcsim.FAULTS), nb=[rng.random() < 0.5 for _ in range(3)],
